@@ -1468,10 +1468,15 @@ def check_out_case(run, c, k, impl_lines, scratch, model):
         # the history files get one block per write at a multiple of historyFreq (not twice for one step)
         H = c["abf"]["H"]
         aw = [int(w.split("@")[1]) for w in want_all if w.startswith("b200@")]
-        hsteps = []
+        rc2, m2, err2 = V.run_lines(model, ["ABFHIST %d %d %s" % (H, len(aw), " ".join(str(i) for i in aw))])
+        hsteps = [int(q) for q in m2[0].split()] if rc2 == 0 and m2 else None
+        osteps = []
         for i in aw:
-            if i % H == 0 and (not hsteps or hsteps[-1] != i):
-                hsteps.append(i)
+            if i % H == 0 and (not osteps or osteps[-1] != i):
+                osteps.append(i)
+        if hsteps != osteps:
+            run.mismatch("outfiles-abf-history", c, osteps, hsteps)
+            hsteps = osteps
         cp = os.path.join(scratch, "c%ds0.hist.count" % k)
         nblocks = 0
         if os.path.exists(cp):
